@@ -234,6 +234,26 @@ func scramble(f reflect.Value) int {
 	return 0
 }
 
+// rekey moves the value of one key of a map to a key the map does not have
+func rekey(f reflect.Value) bool {
+	if f.IsNil() || f.Len() == 0 {
+		return false
+	}
+	k := f.MapKeys()[0]
+	v := f.MapIndex(k)
+	nk := reflect.New(f.Type().Key()).Elem()
+	nk.Set(k)
+	for try := 0; try < 5; try++ {
+		scramble(nk)
+		if !f.MapIndex(nk).IsValid() {
+			f.SetMapIndex(nk, v)
+			f.SetMapIndex(k, reflect.Value{})
+			return true
+		}
+	}
+	return false
+}
+
 func fail(format string, args ...interface{}) {
 	fmt.Printf("FAIL: "+format+"\n", args...)
 	os.Exit(0)
@@ -296,6 +316,23 @@ func main() {
 			if model.Equal(a.Interface(), b.Interface()) != reflect.DeepEqual(a.Interface(), b.Interface()) {
 				fail("%s: Equal = %v but DeepEqual = %v for %+v and %+v", t, model.Equal(a.Interface(), b.Interface()),
 					reflect.DeepEqual(a.Interface(), b.Interface()), a.Interface(), b.Interface())
+			}
+			// a map whose only difference is the name of one key (the value, possibly the zero value, is kept)
+			for i := 0; i < typ.NumField(); i++ {
+				if typ.Field(i).Type.Kind() != reflect.Map {
+					continue
+				}
+				e := reflect.New(typ)
+				refCopy(e.Elem(), a.Elem())
+				if !rekey(e.Elem().Field(i)) {
+					continue
+				}
+				if model.Equal(a.Interface(), e.Interface()) != reflect.DeepEqual(a.Interface(), e.Interface()) ||
+					model.Equal(e.Interface(), a.Interface()) != reflect.DeepEqual(a.Interface(), e.Interface()) {
+					fail("%s: Equal = %v but DeepEqual = %v when one key of map field %s is renamed: %+v and %+v", t,
+						model.Equal(a.Interface(), e.Interface()), reflect.DeepEqual(a.Interface(), e.Interface()), typ.Field(i).Name, a.Interface(), e.Interface())
+				}
+				laws++
 			}
 			for i := 0; i < typ.NumField(); i++ {
 				e := reflect.New(typ)
